@@ -198,7 +198,8 @@ def run(ctx: vlib.Ctx):
     ctx.trusted += ["TyModel.v (cu/uk: hand-written model of unpack.py registry order incl. iteration of str/dict inputs, tuple surplus, field lookup, "
                     "NamedTuple positions with trailing defaults, TypedDict required/optional keys) "
                     "tied by vm_compute correspondence; stdlib constructors (int/float/str, fromisoformat, UUID, Decimal, ..., decodebytes, Enum()) are oracle tables"]
-    ctx.assumptions += ["abstract collections, unions/literals are decided by the oracle only; NamedTuple (as_list form), TypedDict and tuples with an unpacked segment are "
+    ctx.assumptions += ["unions/literals are decided by the oracle only; the collection unpackers rebuilding canonical concrete classes (Sequence->list, Mapping->dict, Deque, OrderedDict, "
+                        "DefaultDict, MappingProxyType, Counter with int(), ChainMap from a list of maps), NamedTuple (as_list form), TypedDict and tuples with an unpacked segment are "
                         "inside the Coq grammar (C03_unpack_ref = the as-generated reading of the reference on every input; C03_unpack_ref_partial = the documented reference "
                         "unless it says 'too few items'; the unguarded statement is refuted: known finding unpacked-tuple-short-input; C03_well_typed; correspondence incl. "
                         "inputs with one nested sequence cut short and every prefix of an unpacked-tuple input); constant positions are recursive (fixed tuples of constants, "
